@@ -165,7 +165,7 @@ func oracleStatus(name string, spec kit.ErrSpec, got kit.ErrObs, stream bool) st
 				return fmt.Sprintf("%s: detail %d differs: %v vs %v", name, i, gd[i], wd[i])
 			}
 		}
-	case "okstatus": // a failure whose own status says OK: must still be a failure (checked above)
+	case "okstatus", "eof", "wrapped-eof": // failures whose own status says OK / that look like end-of-stream: must still be failures (checked above)
 	default: // plain / context errors: non-OK status carrying the text
 		if !strings.Contains(st.Message(), want.Error()) {
 			return fmt.Sprintf("%s: message %q does not carry the error text %q", name, trunc(st.Message()), want.Error())
